@@ -95,7 +95,7 @@ class dictattr(dict):
         >>> assert (d & ['a', 'b', 'x']).keys() == d.keys() & ['a', 'b', 'x']
         """
         other = set(as_list(other))
-        return type(self)(**{key : value for key, value in self.items() if key in set(self.keys()) & other}) 
+        return type(self)({key : value for key, value in self.items() if key in set(self.keys()) & other}) 
 
     def __add__(self, other):
         """
@@ -270,7 +270,7 @@ class dictattr(dict):
         >>> assert d.rename(['A', 'B', 'C']) == d.relabel(upper)
         """
         keys = relabel(list(self.keys()), *args, **relabels)
-        return type(self)(**{keys.get(k,k) : v for k, v in self.items()})
+        return type(self)({keys.get(k,k) : v for k, v in self.items()})
 
     def rename(self, *args, **relabels):
         """
